@@ -107,7 +107,11 @@ def evaluate(
 
   stdout = io.StringIO()
   with contextlib.redirect_stdout(stdout):
-    if hasattr(code_block.body[-1], 'value'):   # pytype: disable=attribute-error
+    last_stmt = code_block.body[-1]  # pytype: disable=attribute-error
+    if isinstance(last_stmt, ast.Expr) or (
+        # A plain `a = b = <expr>`: all targets are names.
+        isinstance(last_stmt, ast.Assign)
+        and all(isinstance(t, ast.Name) for t in last_stmt.targets)):
       last_expr = code_block.body.pop()  # pytype: disable=attribute-error
       result_vars = [RESULT_KEY]
 
@@ -142,11 +146,24 @@ def evaluate(
       for result_var in result_vars:
         global_vars[result_var] = result
     else:
+      if isinstance(last_stmt, ast.Assign):
+        # Assignment to attributes, items or tuples: perform the assignment
+        # and use the assigned value as the result.
+        code_block.body[-1:] = [   # pytype: disable=attribute-error
+            ast.Assign(
+                [ast.Name(RESULT_KEY, ast.Store())], last_stmt.value),
+            ast.Assign(
+                last_stmt.targets, ast.Name(RESULT_KEY, ast.Load())),
+        ]
+        for stmt in code_block.body[-2:]:   # pytype: disable=attribute-error
+          ast.copy_location(stmt, last_stmt)
+        ast.fix_missing_locations(code_block)
       try:
         exec(compile(code_block, '', mode='exec'), global_vars)  # pylint: disable=exec-used
       except Exception as e:
         raise errors.CodeError(code, e) from e
-      global_vars[RESULT_KEY] = list(global_vars.values())[-1]
+      if not isinstance(last_stmt, ast.Assign):
+        global_vars[RESULT_KEY] = list(global_vars.values())[-1]
 
   if returns_stdout:
     return stdout.getvalue()
